@@ -150,14 +150,14 @@ pub fn monitors() -> Vec<Monitor> {
         Monitor {
             prop: "C02",
             run: c02::run,
-            cases: (24000, 360000, 60),
+            cases: (120000, 1500000, 60),
             rule: "one case = one (mode, direction, cipher config, IV, block sequence, feeding schedule with mixed call kinds, output pre-fill); non-trivial = at least 2 blocks; distinct = (subject, cipher config, length class relative to the parallel width, schedule class)",
             thresholds: c02_thresholds,
         },
         Monitor {
             prop: "C03",
             run: c03::run,
-            cases: (24000, 360000, 60),
+            cases: (120000, 1500000, 60),
             rule: "one case = one (CFB/CFB-8/OFB front-end, direction, cipher config, IV, message, chunking); non-trivial = more than one block of data (and >= 2 pieces for chunked front-ends); distinct = (subject, cipher config, residue class of the length mod block size, schedule/form class)",
             thresholds: c03_thresholds,
         },
@@ -416,6 +416,9 @@ fn c15_thresholds(st: &Stats, tier: Tier, _cfgs: &[String]) -> Vec<String> {
         need(st, &mut u, &format!("ok.{}/stream", f), 10);
     }
     need(st, &mut u, "cfb8.resync-observed", 10);
+    need(st, &mut u, "ok.cfb-buf/dec", 20);
+    need(st, &mut u, "ok.cfb/dec/oneshot", 20);
+    need(st, &mut u, "partial-last.cfb/dec/oneshot", 5);
     u
 }
 
@@ -430,6 +433,7 @@ fn c16_thresholds(st: &Stats, tier: Tier, _cfgs: &[String]) -> Vec<String> {
     }
     need(st, &mut u, "interleavings", 200);
     need(st, &mut u, "ok.two-instances", 50);
+    need(st, &mut u, "ok.clone_from", 50);
     need(st, &mut u, "ok.threads", 20);
     u
 }
